@@ -4,18 +4,23 @@ from ..core import Violation
 from .. import pipeline, recvfeed, protocol
 
 ID = 'C03'
-PROP_FILES = ['C03', 'C03Join']
+PROP_FILES = ['C03', 'C03Join', 'C03JoinMulti']
 MODULES = ['OFModel.Zmq.Receiver', 'OFModel.Zmq.Sender', 'OFModel.FilterLoop', 'OFModel.Gen.Facts']
 RULE = ('MQNet pipelines (real MQ/ZMQSender/ZMQReceiver objects, thread-less event loop, virtual time): topologies drawn from chain / tee / tee-rejoin (2-3 branches) / '
         'independent join with 3-7 filters, behaviours from {pass, None on chosen ids (not on rejoined branches), {}, lone Frame, callable, add/rename topic}, '
         'processing times 0-300 ms (incl. slower than the 100 ms poll interval), all subscription forms, every consumer listed as required, message delays 0-90 ms. '
         'Oracle: what every process() was handed equals the composition of the upstream process functions on the source sequence (no frame lost from the first one on, '
         'none duplicated / reordered / altered); deferred results evaluated only in the publishing send.  Every receiver instance is traced and replayed through '
-        'OF.Recv.call0; Filter.process_frames is compared with OF.Loop.processFrames.  non-trivial = a run in which at least one relay skipped, deferred or re-shaped frames')
+        'OF.Recv.call0; Filter.process_frames is compared with OF.Loop.processFrames.  non-trivial = a run in which at least one relay skipped, deferred or re-shaped frames.  Multi-topic join oracle (the statement of C03_join_complete_multi on the real ZMQReceiver): well-formed wire feeds of 1-3 synchronised sources publishing blocks of 1-4 topics (hidden topics, topics whose frame has another frame as prefix) under all-topics / * / explicit subset+remap subscriptions, delivered FIFO per source and interleaved with recv(timeout=0) calls in random poll orders: every returned set holds, for every source, exactly the subscribed topics of the block of that source for the returned id under the mapped names, the id is common to all sources, ids increase; the same feeds are replayed through OF.Recv.call0')
 ASSUMPTIONS = ['partial: stage A component theorems are proved (publish-or-discard, deferred-at-send, id carry, normalisation; with C01/C02/C05 receiver invariants) and the join-completeness '
-               'theorem A1 in its single-topic form (all-topics, explicit and remapped subscriptions) (C03_join_complete_partial: under FIFO delivery and ANY schedule of takes, checks and timed-out calls the returned ids are '
-               'exactly the ids published by every source, none skipped); A1 for multi-topic blocks / star subscriptions and the edge/DAG refinements (B, C) are NOT proved - the pipeline level is '
-               'explored, with the composition reference as oracle',
+               'theorem A1 both in its single-topic form (C03_join_complete_partial) and for MULTI-TOPIC blocks (C03_join_complete_multi, OFProps/C03JoinMulti.lean): non-balanced receiver, all sources '
+               'synchronised, each publishing per id a block of n >= 1 distinct non-empty topics (hidden ones included) followed by the heartbeat, every message carrying topics = ts; subscription per source '
+               'all-topics (hidden topics neither delivered nor expected), * (everything), or an explicit non-empty list that may be a strict subset of the block, remapped, name topics the publisher lacks (pruned) '
+               'and let prefix-matched foreign topics through (blanked); under FIFO delivery and ANY schedule of takes, checks and timed-out calls (i) every returned set is the concatenation over the sources '
+               'of exactly one frame per subscribed topic of that source\'s block of the returned id (never a partial block), all carrying the returned id, the payload of the wire message and the mapped name, '
+               '(ii) the returned ids are exactly the ids published by every source, none skipped below the frontier.  Hypothesis on the network: the block as delivered = the sent block filtered by the SUB prefixes '
+               '(IsBlock / isBlock_of_sent; frames are abstracted through decodeTopic, the ZeroMQ prefix match itself is not modelled).  NOT proved: ephemeral side sources, balanced receivers, recv(state) jumps, '
+               'an explicit subscription with an empty list, progress (liveness), and the edge/DAG refinements (B, C) - the pipeline level is explored, with the composition reference as oracle',
                'MQNet replaces Filter.loop_once by a 10-line replica around the real MQ object (every call timeout=0, re-armed each poll interval or on arrival); libzmq by the in-process fake',
                'message delays below the 100 ms request interval, lossless channels, no restarts (C03 hypotheses)']
 TRUSTED = ['composition reference = the same Python process functions applied to the source sequence (harness/ofverif/pipeline.py: reference)']
@@ -64,6 +69,78 @@ def pf_impl(case):
     return {'r': res, 'reaches': S.called}
 
 
+def multi_join_trial(rng):
+    """a well-formed feed whose sources are all synchronised (hypotheses of C03_join_complete_multi)"""
+    while True:
+        t = recvfeed.gen_trial(rng, 'wf')
+        if any(s['eph'] for s in t['srcs']): continue
+        if any(s['topics'] is not None and not s['topics'] for s in t['srcs']): continue
+        t['state_mode'] = 'none'
+        return t
+
+
+def multi_join_oracle(trial, calls):
+    """statement of C03_join_complete_multi evaluated on what the real receiver returned"""
+    v = []
+    table = {int(k): x for k, x in trial['table'].items()}
+    tops = [p[0][2] if p else [] for p in trial['published']]
+    common = None
+    for p in trial['published']:
+        ids = set(k for _, k, _ in p)
+        common = ids if common is None else common & ids
+    rets = []
+    for c in calls:
+        for o in c:
+            if o['k'] != 'ret': continue
+            rets.append(o['id'])
+            per = {i: [] for i in range(len(trial['srcs']))}
+            for t, b in o['data']:
+                i, k, st, sd, serial = table[b]
+                if k != o['id']: v.append(('multi-join-foreign-id', f'frame of id {k} in set {o["id"]}'))
+                per[i].append((st, t))
+            for i, s in enumerate(trial['srcs']):
+                want = sorted(t for t in tops[i] if recvfeed.subscribed(s['topics'], t))
+                have = sorted(st for st, _ in per[i])
+                if want != have: v.append(('multi-join-partial-block', f'set {o["id"]}: source {i} block {tops[i]} sub {s["topics"]}: expected {want}, got {have}'))
+                for st, t in per[i]:
+                    if t != recvfeed.mapped(s['topics'], st): v.append(('multi-join-name', f'{st} handed on as {t}'))
+            if o['id'] not in (common or set()): v.append(('multi-join-not-common', f'id {o["id"]} not published by every source'))
+    if rets != sorted(set(rets)): v.append(('multi-join-order', str(rets)))
+    return v
+
+
+def multi_join_campaign(ctx, n):
+    res, rng = ctx.result, ctx.rng
+    trials = [c['trial'] for c in ctx.corpus if c.get('feed') == 'recvmulti']
+    if ctx.replay and ctx.replay.get('case', {}).get('feed') == 'recvmulti':
+        trials = [ctx.replay['case']['trial']]; n = 0
+    for _ in range(n): trials.append(multi_join_trial(rng))
+    obs = [recvfeed.run_impl(t) for t in trials]
+    model = ctx.driver.batch([recvfeed.model_request(t) for t in trials]) if ctx.driver and trials else None
+    nsets = nmulti = 0
+    for idx, (t, o) in enumerate(zip(trials, obs)):
+        nret = sum(1 for outs in o for x in outs if x['k'] == 'ret')
+        nsets += nret
+        multi = any(len(p[0][2]) > 1 for p in t['published'] if p)
+        nmulti += bool(multi and nret)
+        res.note({'feed': 'recvmulti', 'srcs': t['srcs'], 'blocks': [p[0][2] if p else [] for p in t['published']], 'nops': len(t['ops']), 'returns': nret},
+                 nontrivial=bool(multi and nret))
+        case = {'feed': 'recvmulti', 'trial': t}
+        for key, what in multi_join_oracle(t, o)[:1]:
+            res.violations.append(Violation(key, what, case))
+        if model is not None:
+            r = model[idx]
+            m = recvfeed.canon_model_calls(r, len(o)) if 'err' not in r else r
+            if m != o:
+                ci = next((i for i, (a, b) in enumerate(zip(o, m)) if a != b), -1) if isinstance(m, list) else -1
+                res.disagreements.append({'point': f'multi-topic feed, ZMQReceiver.recv call #{ci} vs OF.Recv.call0', 'case': case,
+                                          'impl': o[ci] if 0 <= ci < len(o) else None, 'model': m[ci] if isinstance(m, list) and 0 <= ci < len(m) else m})
+            else: res.traces_validated += 1
+    res.extra['multi_join_feeds'] = len(trials)
+    res.extra['multi_join_returned_sets'] = nsets
+    res.extra['multi_join_feeds_with_multi_topic_blocks_returned'] = nmulti
+
+
 def run(ctx):
     logging.disable(logging.CRITICAL)
     res, rng = ctx.result, ctx.rng
@@ -74,6 +151,8 @@ def run(ctx):
     seeds = [c.get('net_seed', 0) for c in ctx.corpus if 'topo' in c]
     if ctx.replay and ctx.replay.get('case', {}).get('topo'):
         topos = [ctx.replay['case']['topo']]; seeds = [ctx.replay['case'].get('net_seed', 0)]; n = 0
+    if ctx.replay and ctx.replay.get('case', {}).get('feed') == 'recvmulti':
+        topos, seeds, n = [], [], 0
     for _ in range(n):
         topos.append(pipeline.gen_topology(rng, c03=True)); seeds.append(rng.randrange(10**9))
     for topo, sd in zip(topos, seeds):
@@ -99,6 +178,8 @@ def run(ctx):
                 res.disagreements.append({'point': f'MQNet receiver trace of node {name}, call #{ci} vs OF.Recv.call0', 'case': case,
                                           'impl': tr.obs[ci] if ci >= 0 else None, 'model': m[ci] if ci >= 0 and isinstance(m, list) else m})
             else: res.traces_validated += 1
+    # multi-topic join: the statement of C03_join_complete_multi on the real receiver
+    multi_join_campaign(ctx, 4000 if ctx.thorough else (1200 if ctx.escalate else 400))
     # process_frames / MQ.send shortcut vs OF.Loop
     cases = pf_cases(rng, 400 if not ctx.thorough else 4000)
     impl = [pf_impl(c) for c in cases]
